@@ -27,9 +27,16 @@ Definition qnorm (q : Q) : Q :=
   if (1 <? g)%Z && (n mod g =? 0)%Z && (d mod g =? 0)%Z
   then Qmake (n / g) (Z.to_pos (d / g)) else q.
 
+(* Representation guard of the executable instance: a result whose denominator has grown beyond 2^256 is normalised (value
+   unchanged, Transfer/ParamBase.v qguard_Qeq), so that unnormalised chains (ghost knots repaired from repaired ghost knots,
+   products of insertion coefficients) cannot square their denominators step after step. *)
+Definition qbig : Z := Eval vm_compute in (2 ^ 256)%Z.
+Definition qguard (q : Q) : Q := if (Zpos (Qden q) <? qbig)%Z then q else qnorm q.
+
 #[global] Instance NumQ : Num Q := {
   n0 := 0%Q; n1 := 1%Q;
-  nadd := Qplus; nsub := Qminus; nmul := Qmult; ndiv := Qdiv;
+  nadd a b := qguard (Qplus a b); nsub a b := qguard (Qminus a b);
+  nmul a b := qguard (Qmult a b); ndiv a b := qguard (Qdiv a b);
   nltb a b := negb (Qle_bool b a); nleb := Qle_bool; neqb := Qeq_bool;
   nofZ z := inject_Z z;
   nfloor := Qfloor;
